@@ -43,6 +43,9 @@ def run(tier: str) -> int:
             ("bv2x4", "SolverComposite", {}, q_pre4, q_post4, 1, 3, 1, ""),
             ("bv3", "SolverCacheless", {}, [("add", "x!=0"), ("sat", "none"), ("eval", "x", 9, "none")], [("add", "x==3"), ("max", "x", "u", "none"), ("eval", "x", 9, "none")], 2, 3, 2, "forks2"),
             ("bv2x4", "SolverComposite", {}, [("add", "x!=2"), ("add", "y<u2"), ("sol", "x+y", 3, "none"), ("eval", "x+y", 1, "none")], [("add", "x+y==3"), ("max", "x+y", "u", "none"), ("sol", "x+y", 2, "none"), ("eval", "x+y", 9, "none")], 3, 2, 1, "cross"),
+            # a solver object that exists before the fork and is dropped / reset by one member afterwards
+            ("bv3", "Solver", {}, [("add", "x!=0"), ("add", "x+y==5"), ("sat", "none"), ("sol", "x", 5, "none")], [("downsize",), ("sat", "x==6"), ("sol", "x", 0, "none"), ("eval", "x", 1, "none"), ("add", "x==3")], 3, 2, 1, "downsize"),
+            ("bv3", "SolverCacheless", {}, [("add", "x!=0"), ("sat", "none")], [("downsize",), ("min", "x", "u", "none"), ("sol", "x", 0, "none"), ("add", "x==3")], 2, 2, 1, "downsize"),
             ("bv3", "SolverHybrid", {}, q_pre3[:3], q_post3[:5], 1, 2, 1, ""),
             ("bv3", "SolverReplacement", {}, [("add", "x!=0"), ("eval", "x", 9, "none")], q_post3[:5], 1, 2, 1, ""),
             ("bv3", "SolverReplacementVSA", {"approx": True}, [("add", "x<u5"), ("add", "x!=0"), ("max", "x", "u", "none")], vsa_post, 2, 3, 1, ""),
